@@ -55,7 +55,7 @@ fun EHas(els seq[Element], i int, x string) bool := if i <= 0 then false else (E
 pred AccIs(acc shared.Accumulator, els seq[Element], i int, l seq[Element], j int, q float64) :=
      (forall x string :: {accP[acc][x]} accP[acc][x] == EPos(els, i, x) + CPosIn(l, j, q, x))
   && (forall x string :: {accN[acc][x]} accN[acc][x] == ENeg(els, i, x) + CNegIn(l, j, q, x))
-  && (forall x string :: {x in accH[acc]} (x in accH[acc]) == (EHas(els, i, x) || SpecHas(l, j, x)))
+  && (forall x string :: {x in accH[acc]} {EHas(els, i, x)} (x in accH[acc]) == (EHas(els, i, x) || SpecHas(l, j, x)))
 
 // the same, on top of what the accumulator held before (period reporters keep one accumulator for the whole walk):
 // P0 / N0 / H0 are the view's values at the start of the day
